@@ -10,7 +10,8 @@ META = {
         "R3 every access of the Conduit happens under self.inner.lock() in the same function, the halves are not Clone and the Conduit is "
         "built in one place; R4 the only growth of data is bounded by capacity - len; R5 order of tests (data before closed in poll_read, "
         "closed first in poll_write); R6 Drop/shutdown close the channel under the lock; R7 coop: forced yields self-wake and happen before "
-        "the lock. Thorough tier repeats R3/R6/R7 on the --no-default-features build."),
+        "the lock. Thorough tier repeats R3/R6/R7 on the --no-default-features build. R8 read side of the data path: bytes leave data only in Conduit::read from the front, the reader's ReadBuf is append-only, appended = removed = count."
+),
     "does_not_decide": "memory ordering of the waker hand-off (delegated to parking_lot::Mutex); fairness of the scheduler",
     "level_text": "Structural obligations that add up to the standard monitor argument for a single-slot waker channel; decided on every path of the five functions involved.",
 }
